@@ -50,8 +50,11 @@ type mwDeploy struct {
 	handler http.Handler
 	hits    []appHit
 	gated   []appHit // hits on the attribute-gated handler
+	nested  []appHit // hits on a handler that sits behind ANOTHER deployment's RequireAccount and then this one's
+	mux     *http.ServeMux
 	rsCount int
 	kp      KeyPair
+	record  func(dst *[]appHit) http.Handler
 }
 
 func (d *mwDeploy) acs() string      { return d.base + "/saml/acs" }
@@ -113,7 +116,15 @@ func newMWDeploy(c mwDeployConf, idpMD *saml.EntityDescriptor, gateAttr, gateVal
 	mux.Handle("/gated/", m.RequireAccount(samlsp.RequireAttribute(gateAttr, gateValue)(record(&d.gated))))
 	mux.Handle("/", m.RequireAccount(record(&d.hits)))
 	d.handler = mux
+	d.mux = mux
+	d.record = record
 	return d
+}
+
+// nestBehind mounts /nested/ on d: first outer's RequireAccount, then d's own, then a recording handler
+// (two SAML deployments in one process, e.g. a portal in front of a stricter application).
+func (d *mwDeploy) nestBehind(outer *mwDeploy) {
+	d.mux.Handle("/nested/", outer.mw.RequireAccount(d.mw.RequireAccount(d.record(&d.nested))))
 }
 
 // ---------------------------------------------------------------- browser stub
@@ -276,10 +287,11 @@ func decodeStartReply(rep *reply) (*seenAuthnRequest, error) {
 // ---------------------------------------------------------------- users of the foreign IdP
 
 type mwUser struct {
-	NameID   string // "" = assertion without NameID
-	NoNameID bool
-	Attrs    []AttrSpec
-	Index    string
+	NameID       string // "" = assertion without NameID
+	NoNameID     bool
+	Attrs        []AttrSpec
+	Index        string
+	IdPSessionMs int64 // >0: the IdP announces its own session end (SessionNotOnOrAfter) this long after issuance
 }
 
 func mwUsers() []mwUser {
@@ -293,6 +305,7 @@ func mwUsers() []mwUser {
 		// the same attribute name twice with other attributes in between, spread over two statements
 		{NameID: "frank", Index: "si-frank", Attrs: []AttrSpec{{Name: "unit", Values: []string{"zqunit1qz"}}, {Name: "role", Friendly: "role", Values: []string{"none"}},
 			{Name: "mail", Friendly: "mail", Values: []string{"zqmail6qz"}}, {Name: "unit", Values: []string{"admin"}, Stmt: 1}, {Name: "tail", Values: []string{"zqtail6qz"}, Stmt: 1}}},
+		{NameID: "heidi", Index: "si-heidi", IdPSessionMs: 10 * 3_600_000, Attrs: []AttrSpec{{Name: "role", Friendly: "role", Values: []string{"user"}}}},
 		{NameID: "grace", Index: "si-grace", Attrs: []AttrSpec{{Name: "groups", Values: []string{"zqg7aqz", "zqg7bqz"}}, {Name: "role", Friendly: "role", Values: []string{"user"}},
 			{Name: "groups", Values: []string{"zqg7cqz"}}, {Name: "role", Friendly: "role", Values: []string{"admin"}}}},
 	}
@@ -315,7 +328,11 @@ func (u mwUser) expectedAttrs() map[string][]string {
 
 // mwResponseSpec builds a genuine, valid response of the foreign IdP for user u addressed to deployment d.
 func mwResponseSpec(d *mwDeploy, u mwUser, inResponseTo string, n int) RespSpec {
-	a := AsrtSpec{ID: fmt.Sprintf("id-as-%d", n), Issuer: idpEntity, NameID: u.NameID, NoNameID: u.NoNameID,
+	var snoa *int64
+	if u.IdPSessionMs > 0 {
+		snoa = i64(u.IdPSessionMs)
+	}
+	a := AsrtSpec{ID: fmt.Sprintf("id-as-%d", n), Issuer: idpEntity, NameID: u.NameID, NoNameID: u.NoNameID, SessionNOA: snoa,
 		NotBefore: i64(-1000), NotOnOrAfter: i64(3_600_000 * 24), Audiences: []string{d.entityID()}, Attrs: u.Attrs, SessionIndex: u.Index, Sign: true,
 		Confs: []ConfSpec{{NotOnOrAfter: i64(3_600_000 * 24), Recipient: d.acs(), InResponseTo: inResponseTo}}}
 	return RespSpec{ID: fmt.Sprintf("id-resp-%d", n), Issuer: sp(idpEntity), Destination: d.acs(), InResponseTo: inResponseTo,
